@@ -138,6 +138,18 @@ def check_sample(s, r3="C06.3", r4="C06.4"):
         keeps = [lp for lp in leaf_paths if lp.ret == ("param", "$x")]
         s.ob(r3, con3 + tag, len(takes) == 1 and len(keeps) >= 1, "array leaves are taken, non-array/scalar leaves pass through", loc3,
              key="leaf-cases", detail=f"{len(takes)} take / {len(keeps)} keep")
+        # which leaves pass through untouched: only what has no slot axis by its very nature - a non-array, or a 0-d array. A guard on anything
+        # else (the leaf's shape compared with some field's, its dtype, its size) lets a per-slot field through unsampled when its shape
+        # happens to coincide (E stacked buffers of capacity 1: rewards have the shape of `position`), pairing it with the sampled fields
+        foreign3 = set()
+        for lp in leaf_paths:
+            for t_, _v in lp.conds:
+                bad_attr = any(isinstance(x_, tuple) and x_ and x_[0] == "attr" and x_[1] == ("param", "$x") and x_[2] != "ndim" for x_ in walk(t_))
+                other = any(isinstance(x_, tuple) and x_ and x_[0] == "attr" and x_[1] == self_ for x_ in walk(t_))
+                if bad_attr or other:
+                    foreign3.add(show(t_, maxlen=100))
+        s.ob(r3, con3 + tag, not foreign3, "a leaf passes through unsampled only for being a non-array or 0-d (no guard on its shape / dtype / on another field)", loc3,
+             key="sample-leaf-guard", detail="; ".join(sorted(foreign3)), necessary_for="a sampled transition has all of its fields from the same insertion; only stored slots are returned")
         if len(takes) != 1:
             continue
         refenv = s.refprog(b3, f"""
